@@ -278,7 +278,13 @@ def free_run(rng: random.Random, idx: int, n_threads: int, extra: bool = False):
                 pass
 
     def conv_calls(schema_first: bool, concurrent: bool):
-        a = lambda: json.dumps(serialization_schema(_List[AM]), sort_keys=True)  # noqa: E731
+        from apischema import settings as _settings
+
+        def slow_default(tp):      # the public default_conversion hook: every resolution step takes a while
+            time.sleep(0.0005)
+            return _settings.serialization.default_conversion(tp)
+
+        a = lambda: json.dumps(serialization_schema(_List[AM], default_conversion=slow_default), sort_keys=True)  # noqa: E731
         b = lambda: repr(serialize(_List[AM], [AM(1), AM(2)]))  # noqa: E731
         c = lambda: json.dumps(serialization_schema(OS, conversion=os_conv), sort_keys=True)  # noqa: E731
         d = lambda: repr(serialize(OS, OS(1, "abc"), conversion=os_conv))  # noqa: E731
